@@ -3,7 +3,7 @@
    start with 1 (Some) or 0 (None / error).  The command numbers are read by tools/models.py
    from the CMD comments below. *)
 From Coq Require Import ZArith List Bool.
-From VV Require Import lib.PyInt lib.PyFloat gen.GenTables model.Driver hw.Npu.
+From VV Require Import lib.PyInt lib.PyFloat gen.GenTables model.Driver hw.Npu hw.Defuse.
 Import ListNotations.
 Open Scope Z_scope.
 
@@ -93,10 +93,95 @@ Definition run_footprints (a : list Z) : list Z :=
   | _ => [-1]
   end.
 
+(* ---- C03 ---- *)
+Fixpoint take_init (n : nat) (a : list Z) : list tseg * list Z :=
+  match n, a with
+  | S n', rg :: lo :: hi :: id :: dl :: t => let '(l, r) := take_init n' t in ((rg, lo, hi, Tag id dl) :: l, r)
+  | _, _ => ([], a)
+  end.
+Definition mk_opid (l : list Z) : option opid :=
+  match l with
+  | [a1;a2;a3;a4; b1;b2;b3;b4; c1;c2;c3;c4; w0i;w0o; s0i;s0o; w1i;w1o; s1i;s1o; li;lo; di;dof; k1; k2] =>
+      Some {| o_ifm := {| i_id := a1; i_y0 := a2; i_x0 := a3; i_c0 := a4 |};
+              o_ifm2 := {| i_id := b1; i_y0 := b2; i_x0 := b3; i_c0 := b4 |};
+              o_ofm := {| i_id := c1; i_y0 := c2; i_x0 := c3; i_c0 := c4 |};
+              o_w0 := {| g_id := w0i; g_off := w0o |}; o_s0 := {| g_id := s0i; g_off := s0o |};
+              o_w1 := {| g_id := w1i; g_off := w1o |}; o_s1 := {| g_id := s1i; g_off := s1o |};
+              o_lut := {| g_id := li; g_off := lo |}; o_dma := {| g_id := di; g_off := dof |};
+              o_ifm_const := negb (k1 =? 0); o_ifm2_const := negb (k2 =? 0) |}
+  | _ => None
+  end.
+Fixpoint take_opids (n : nat) (a : list Z) : option (list opid) * list Z :=
+  match n with
+  | O => (Some [], a)
+  | S n' =>
+      let '(h, t) := take_n 26 a in
+      match mk_opid h with
+      | Some o => let '(r, rest) := take_opids n' t in
+                  (match r with Some l => Some (o :: l) | None => None end, rest)
+      | None => (None, a)
+      end
+  end.
+
+Definition tseg_flat (s : tseg) : list Z :=
+  let '(rg, lo, hi, t) := s in [rg; lo; hi; t_id t; t_delta t].
+Fixpoint first_bad_read (h : hist) (rs : list tseg) : list Z :=
+  match rs with
+  | [] => []
+  | s :: t => if read_ok h s then first_bad_read h t else tseg_flat s
+  end.
+(* first byte of a demanded range that does not resolve to the demanded tag, and what is there *)
+Fixpoint find_bad_byte (h : hist) (rg lo : Z) (n : nat) (t : tag) : list Z :=
+  match n with
+  | O => []
+  | S n' => match lookup h rg lo with
+            | Some t' => if tag_eqb t' t then find_bad_byte h rg (lo + 1) n' t else [lo; 1; t_id t'; t_delta t']
+            | None => [lo; 0; 0; 0]
+            end
+  end.
+Fixpoint explain (h : hist) (ops : list (list tseg * list tseg)) : list Z :=
+  match ops with
+  | [] => []
+  | (rs, ws) :: t =>
+      match step h rs ws with
+      | Some h' => explain h' t
+      | None => match first_bad_read h rs with
+                | [rg; lo; hi; id; dl] => [rg; lo; hi; id; dl] ++ find_bad_byte h rg lo (Z.to_nat (Z.min 65536 (hi - lo))) (Tag id dl)
+                | l => l end
+      end
+  end.
+
+(* CMD check_defuse = 6 : ncores lut_addr shram_size ninit (rg lo hi id delta)* nops (26 numbers)* words
+   -> [1; ok; first bad op index; demanded rg lo hi id delta; first bad address; defined?; found id; found delta] | [0] *)
+Definition run_check_defuse (a : list Z) : list Z :=
+  match a with
+  | nc :: la :: ss :: ninit :: t =>
+      let '(init, t1) := take_init (Z.to_nat ninit) t in
+      match t1 with
+      | nops :: t2 =>
+          match take_opids (Z.to_nat nops) t2 with
+          | (Some ids, ws) =>
+              let hw := {| hw_ncores := nc; hw_lut_addr := la; hw_shram_size := ss |} in
+              match run_stream ws with
+              | Some evs =>
+                  if check_defuse hw init evs ids then [1; 1; -1]
+                  else 1 :: 0 :: defuse_first_bad hw init evs ids ::
+                       (match stream_tagged hw evs ids with
+                        | Some ops => explain (fold_left hwrite init []) ops | None => [] end)
+              | None => [0]
+              end
+          | (None, _) => [-1]
+          end
+      | [] => [-1]
+      end
+  | _ => [-1]
+  end.
+
 Definition run (cmd : Z) (a : list Z) : list Z :=
   if cmd =? 1 then run_driver_payload a
   else if cmd =? 2 then run_driver_parse a
   else if cmd =? 3 then run_check_bounds a
   else if cmd =? 4 then run_decode_stream a
   else if cmd =? 5 then run_footprints a
+  else if cmd =? 6 then run_check_defuse a
   else [-1].
